@@ -12,13 +12,13 @@ CHECKS = {
          "Every (old database kind, new input, force, input form) combination checks that create_db without force raises and leaves the file's canonical content unchanged and with force equals a fresh import; every sequence of <= 3 (quick) / <= 4 (thorough) of 19 read-style calls on copies of 4 file databases runs under a statement trace (only SELECT/PRAGMA allowed) and the closed file is compared canonically (all tables, counters, dialect, directives) and reopened.",
          "3/C19", "sqlite3's trace callback is trusted to see every statement; byte identity is reported, not judged; " + TRUST),
  "C20": ("E3", "systematic schedule enumeration of real forked processes under a controlled scheduler (all interleavings for 2 imports; pre-emption-bounded for 3 imports and for readers), forced temp-name collisions",
-         "Real create_db processes sharing one temp directory are serialised at every temp-directory operation; for six 2-process job sets every interleaving, for three 3-process sets every schedule within 1 (quick) / 2 (thorough) pre-emptions, is executed; each output database is compared canonically with a solitary run and the shared directory must be empty. 2 and 3 concurrent readers of one file are scheduled at connect/statement/commit/row-fetch granularity within a pre-emption bound and must all observe the full content.",
+         "Real create_db processes sharing one temp directory are serialised at every temp-directory operation; for six 2-process job sets every interleaving, for three 3-process sets every schedule within 1 (quick) / 2 (thorough) pre-emptions, is executed; each output database is compared canonically with a solitary run and the shared directory must be empty. 2 and 3 concurrent readers of one file are scheduled at connect/statement/commit/row-fetch granularity within a pre-emption bound and must all observe the full content. Every job has a scheduling point at its start (start offsets); the controller itself runs a solitary import in the shared directory before forking; job kinds include from_string, force=True over an existing file, file:// URL input, a CDS-only GTF and one solitary 13 000-line import.",
          "3/C20", "one process runs at a time; OS/sqlite atomicity trusted; 2-3 processes only; " + TRUST),
  "C02": ("E1", "stateless exhaustive enumeration of all small Parent DAGs x dangling value x every line permutation against the real importer and relation queries",
-         "Every DAG on <= 4 (quick) / <= 5 (thorough) labelled features, with a dangling Parent value on at most one feature and every permutation of the lines, is imported by the real create_db; children()/parents() for every feature, level, featuretype and order_by, plus iter_by_parent_childs, are compared with the closure computed from the Parent lists.",
+         "Every DAG on <= 4 (quick) / <= 5 (thorough) labelled features, with a dangling Parent value on at most one feature and every permutation of the lines, is imported by the real create_db; children()/parents() for every feature, level, featuretype and order_by, plus iter_by_parent_childs, are compared with the closure computed from the Parent lists (one id contains an escaped comma; results are also consumed nested and interleaved); plus one 7800-line file with 6000 second-level relations in three line orders.",
          "3/C02", "unique ids; two relation levels; " + TRUST),
  "C03": ("E1", "stateless exhaustive enumeration of small GTF gene/transcript structures x line orders x inference flags against a reference derivation",
-         "Gene/transcript structures (1-2 transcripts, 1-2 genes, exon sets incl. none/nested/reordered, wide CDS lines, explicit gene/transcript lines) x line orders x the four disable_infer_* combinations x default/custom keys are imported by the real create_db; stored ids, derived extents and every children/parents answer at levels 1, 2, None are compared with a reference derivation written from the statement.",
+         "Gene/transcript structures (1-2 transcripts, 1-2 genes, exon sets incl. none/nested/reordered, wide CDS lines, explicit gene/transcript lines) x line orders x the four disable_infer_* combinations x default/custom keys are imported by the real create_db; stored ids, derived extents and every children/parents answer at levels 1, 2, None are compared with a reference derivation written from the statement (ids with a blank, file names *.gtf/*.gff/*.gff3/*.txt); plus one 2400-line GTF with 1200 transcripts under three flag settings.",
          "3/C03", "all sub-feature lines carry both ids; exons of a gene share seqid/strand; explicit transcript as level-2 child of its gene is accepted either way; " + TRUST),
  "C04": ("E1", "stateless exhaustive enumeration of id_spec forms x per-line attribute presence patterns against a reference id handler",
          "13 id_spec forms x featuretype patterns x every assignment of {ID only, Name only, both, neither, two ID values} to 3 (quick) / 4 (thorough) lines, plus the GTF default spec, are imported; stored keys, uniqueness, exact look-up by key and by Feature, absent near-miss keys and rejection of multi-valued ids are compared with a reference written from the statement.",
@@ -30,7 +30,7 @@ CHECKS = {
          "A database holding one feature for every pair of bin-boundary coordinates (and one over positions 1..6) is queried with every interval of the same set x completely_within x 12 call forms (region kwargs/tuple/string/Feature/no seqid/one-sided, limit= of all_features, features_of_type, children, parents) x strand x featuretype; each answer is compared with a brute-force scan.",
          "3/C06", "region(Feature) strand accepted under both readings; one-sided forms checked with inclusion bounds; " + TRUST),
  "C10": ("E2", "explicit-state breadth-first search over real update/delete/add_relation/reopen histories with canonical-state deduplication and a reference model; exhaustive fault-position enumeration",
-         "All histories up to depth 3 (quick) / 4 (thorough) after choosing one of three initial databases (GFF3 chain with or without an id-less feature; GTF with inference disabled), over 22 GFF3 / 13 GTF events on a real file database, are replayed on a live FeatureDB with a reference model alongside; every distinct reached state (deduplicated on a canonical form of all tables plus in-memory counters) is compared with the model through a second connection, the .bak file with the pre-operation state, and every update bundle is re-run with its feature source failing at every position.",
+         "All histories up to depth 3 (quick) / 4 (thorough) after choosing one of three initial databases (GFF3 chain with or without an id-less feature; GTF with inference disabled), over 22 GFF3 / 13 GTF events on a real file database, are replayed on a live FeatureDB with a reference model alongside; every distinct reached state (deduplicated on a canonical form of all tables plus in-memory counters) is compared with the model through a second connection, the .bak file with the pre-operation state, every update bundle is re-run with its feature source failing at every position, ordinary reads are interleaved between the operations and the live object's counts, look-ups, dialect, stored bins and the library's module-level settings are compared at the end; plus one large history deleting 1000 ids in a single call.",
          "3/C10", "small-scope (depth/alphabet); after a failed operation only the backup is judged; " + TRUST),
  "C11": ("E1", "stateless exhaustive enumeration of filter/order_by/reverse combinations against a full scan of a memoised real database",
          "On a 16-feature (thorough: also 30-feature) database with mixed-case/non-ASCII seqids, numeric-looking scores, ties and '.' coordinates, every combination of method x featuretype x strand x order_by (12 names as string, 1-tuple, all ordered pairs) x reverse is run; result sets are compared with a brute-force filter and sequences must be monotone under SQLite's comparison; counts and distinct listings are compared too.",
@@ -42,7 +42,7 @@ CHECKS = {
          "Every ordered list of 1..3 features (interval over 5 (quick) / 6 positions x 2 seqids x 2 strands) x 4 option settings goes through the real interfeatures; every pair of transcripts with 1..3 (thorough ..4) exons with distinct starts goes through create_introns (both selections) and create_splice_sites; results are compared with a reference written from the statement; inputs and database must be unchanged.",
          "3/C15", "exons of a transcript have distinct starts; " + TRUST),
  "C16": ("E1", "stateless exhaustive enumeration of interval multisets x criteria x patterns x object histories against a reference run-builder and an independent interval union",
-         "Every start-ordered multiset of <= 3 (quick) / <= 4 (thorough) intervals over 6 positions x 9 criteria sets x 4 seqid/strand/type patterns x 4 object histories goes through the real merge(); partition, extents, id freshness, input and database immutability and repeatability are checked; merge_all (both exclude_components settings) and children_bp (merge on/off) are checked on real databases built from the same multisets.",
+         "Every start-ordered multiset of <= 3 (quick) / <= 4 (thorough) intervals over 6 positions x 9 criteria sets x 4 seqid/strand/type patterns x 4 object histories goes through the real merge(); partition, extents, id freshness, input and database immutability and repeatability are checked; merge_all (both exclude_components settings, default and two non-default criteria sets, ascending/descending file order) and children_bp (merge on/off) are checked on real databases built from the same multisets, plus one 1700-feature database with a 1300-member run.",
          "3/C16", "criteria sets never consult ambiguous accumulated fields; " + TRUST),
  "C17": ("E1", "stateless exhaustive enumeration of setters x values x switch, of small mappings and mapping pairs, and of feature pairs",
          "Every (feature source, setter, value shape, key, always_return_list) combination, every 1..3-key mapping over 8 value shapes (JSON identity), every ordered pair of 49 mappings x numeric_sort x container x switch (merge_attributes vs a reference, argument immutability) and every pair of a 24-feature set (equality/hash) is evaluated on the real code.",
@@ -66,7 +66,7 @@ CHECKS = {
          "Every line of a 48-dialect grammar (attribute shapes, escapes, extra columns, '.' coordinates) up to 3 (quick) / 4 (thorough) attributes is parsed and printed by the real code and compared with the generator's expectation: columns, ordered attributes, inferred dialect, byte-identical print, strict=False space rendering.",
          "3/C07", "keys are \\w+, escapes upper-case and of reserved characters only; " + TRUST),
  "C12": ("E1", "stateless exhaustive enumeration of a choice tree over the real function, compared with independent bin geometry",
-         "All (start,end) pairs over the +-2 (quick) / +-3 (thorough) boundary grid of every bin level, both conventions, both result forms, are evaluated on the real bins() and checked against bin extents computed by arithmetic; all overlapping interval pairs of a sub-grid check bin-in-bin-set; Feature.bin agrees.",
+         "All (start,end) pairs over the +-2 (quick) / +-3 (thorough) boundary grid of every bin level, both conventions (asked in both orders within one execution), both result forms, are evaluated on the real bins() and checked against bin extents computed by arithmetic; all overlapping interval pairs of a sub-grid check bin-in-bin-set; Feature.bin agrees.",
          "3/C12", "behaviour away from the grid is covered only by the argument that bins() sees coordinates through fixed shifts; " + TRUST),
 }
 NOT_YET = "check not built yet in this round (work in progress; see DESIGN.md section 3)"
